@@ -5,7 +5,7 @@ set -e
 HERE="$(cd "$(dirname "$0")" && pwd)"
 cd "$HERE"
 mkdir -p .cache evidence/replay
-/venv/bin/python translator/maps2coq.py "${VERIF_REPO:-/repo}/src/pyqasm/maps.py" coq/Gates/GatesGen.v .cache/maps2coq_report.json
+/venv/bin/python translator/maps2coq.py "${VERIF_REPO:-/repo}/src/pyqasm/maps.py" coq/Gates/GatesGen.v coq/.maps2coq_report.json
 /venv/bin/python spec/gates_spec.py coq/Gates/GateSpecGen.v
 cd coq
 coq_makefile -f _CoqProject -o Makefile >/dev/null
